@@ -240,7 +240,23 @@ func (e *env) remove(x *hist.WInfo, mode string) bool {
 	h.IEmit("R req %d %d ok", x.Num, d.Pass(x.Pass))
 	at := 1 + r.Intn(2) // inject after phase 1 (step 1) or after the first round (step 2, multi-round only)
 	moved := false
+	ab := &awayBack{}
+	if mode == "awayback" && r.Chance(35) {
+		ab.away(e) // the node has left before the removal is requested
+	}
 	between := func(kind string, step int, status string) string {
+		if mode == "awayback" {
+			// the node leaves its branch at one step and is back on it at the next; nothing is announced
+			if kind == "remove" {
+				switch ab.state {
+				case 0:
+					ab.away(e)
+				case 1:
+					ab.back(e)
+				}
+			}
+			return ""
+		}
 		if moved || mode == "none" {
 			return ""
 		}
@@ -277,6 +293,7 @@ func (e *env) remove(x *hist.WInfo, mode string) bool {
 		return false
 	}
 	d.Settle()
+	ab.back(e)
 	if h.Stale {
 		h.Process(h.N.Tip())
 	}
@@ -332,7 +349,7 @@ func runOne(seed uint64, n int, out *bufio.Writer, tier string) (err error) {
 	h.Query()
 	x := h.Wallets[r.Intn(len(h.Wallets))]
 	xAddrs := append([]*hist.AddrInfo{}, x.Addrs...)
-	modes := []string{"none", "block", "reorg", "reorg", "reorg", "restart", "restart-reorg"}
+	modes := []string{"none", "block", "reorg", "reorg", "reorg", "restart", "restart-reorg", "awayback", "awayback"}
 	mode := modes[r.Intn(len(modes))]
 	abl := map[int]string{}
 	tipBefore := *h.N.Tip().Hash()
@@ -502,6 +519,10 @@ func directed(k int, out *bufio.Writer) {
 		e.close()
 		out.Flush()
 	}()
+	if k >= reattachFirst {
+		reattach(e, A, B, a1, b1, k-reattachFirst)
+		return
+	}
 	switch k {
 	case 1, 2:
 		// C08_frame_later_refuted: T spends A's coin and pays only B; B removed; T's block reorganised away.
@@ -880,6 +901,7 @@ func main() {
 		if *tier == "thorough" {
 			ks = append(ks, 7)
 		}
+		ks = append(ks, reattachScenarios(*tier)...)
 		outs := make([][]byte, len(ks))
 		var wg sync.WaitGroup
 		sem := make(chan struct{}, *workers)
